@@ -64,7 +64,13 @@ def addressing(facts):
                 key = "count_min_sketch::update(void*):adds-weight-once"
                 body = [txt(s.get("e")).replace(" ", "") for s in stmts_of(loops[0]["b"])] if loops else []
                 tot = [txt(s.get("e")).replace(" ", "") for s in stmts_of(fn["body"]) if s.get("k") == "Expr"]
-                ok = body == ["(_sketch_array[h]+=weight)"] and any(t.startswith("(_total_weight+=((weight>=0)?weight:-weight))") for t in tot)
+                # every write to a cell anywhere in update is an unconditional `+= weight` (linearity: merge adds cells, so update must too)
+                writes = []
+                walkp(fn["body"], lambda n, ps: writes.append((n, [p.get("k") for p in ps])) if n.get("k") == "Assign" and "_sketch_array" in txt(n["l"]) else None)
+                lin = all(n.get("op") == "+=" and txt(n["r"]) == "weight" and not any(k in ("If", "Cond", "While", "Do", "Switch") for k in ks) for n, ks in writes)
+                ok = body == ["(_sketch_array[h]+=weight)"] and len(loops) == 1 and len(writes) == 1 and lin and any(t.startswith("(_total_weight+=((weight>=0)?weight:-weight))") for t in tot)
+                if not lin:
+                    body = ["cell written by %s under %s" % (txt(n), [k for k in ks if k in ("If", "Cond", "While", "Do", "Switch")]) for n, ks in writes]
                 out.append(ob("cm.update", key, fn["pat"], "discharged" if ok else "violated", "each addressed cell += weight exactly once; total += |weight|" if ok else "update body is %s / %s: every addressed cell must receive `+= weight` exactly once and the total `+= |weight|`" % (body, tot), fn["qname"]))
             else:
                 key = "count_min_sketch::get_estimate(void*):min-over-rows"
@@ -104,7 +110,12 @@ def overload_siblings(facts):
         for name, fn in sorted(d.items()):
             key = "count_min_sketch::%s(%s):bytes" % (name, t)
             got = core_args(fn)
-            if got is None or ref is None:
+            wrong = []
+            if got is None:
+                walk(fn["body"], lambda n: wrong.append(n) if n.get("k") == "Call" and n.get("cname") in ("update", "get_estimate", "get_lower_bound", "get_upper_bound") and n.get("cname") != fn["name"] and (n.get("crec") or "").endswith("count_min_sketch") else None)
+            if wrong:
+                out.append(ob("cm.siblings", key, wrong[0]["loc"], "violated", "%s(%s) forwards to %s(...) instead of %s(const void*, size): wrong peer (e.g. the lower bound answered with the upper bound breaks lower <= estimate <= upper)" % (name, t, wrong[0]["cname"], name), fn["qname"]))
+            elif got is None or ref is None:
                 out.append(ob("cm.siblings", key, fn["pat"], "unrecognised", "no delegation to the (void*, size) overload found", fn["qname"]))
             elif got == ref:
                 out.append(ob("cm.siblings", key, fn["pat"], "discharged", "hands (%s) to the core overload, like update" % ", ".join(got[0]), fn["qname"]))
